@@ -102,7 +102,14 @@ func c20(w *World) {
 	}
 	w.Probe("logged_on")
 	stop := false
-	noMoreReg := false // registrations end before the sessions are stopped (a stopped session drops its handler pool)
+	noMoreReg := false // registrations on a session end before that session is Stop()ped (Stop drops its handler pool)
+	// the endings are drawn up front so that registrations may go on, through logout and close, on every
+	// session that is not going to be stopped
+	iniEnding := make([]int, len(inis))
+	for i := range iniEnding {
+		iniEnding[i] = w.W.Draw(4)
+	}
+	stopAcc0 := w.W.Chance(1, 2)
 	running := 0
 	spawn := func(name string, f func(i int)) {
 		running++
@@ -140,7 +147,7 @@ func c20(w *World) {
 		spawn("ini-queries", func(i int) {
 			_ = in.S.IsLogged()
 			_ = in.S.Context().Err()
-			if i%7 == 0 && !noMoreReg {
+			if i%7 == 0 && !(noMoreReg && iniEnding[k] == 0) {
 				in.S.OnChangeState(utils.EventLogout, func() bool { return true })
 				in.H.HandleIncoming(fixgen.MsgTypeMarketDataRequest, func([]byte) bool { return true })
 				in.H.HandleOutgoing(simplefixgo.AllMsgTypes, func(simplefixgo.SendingMessage) bool { return true })
@@ -148,8 +155,9 @@ func c20(w *World) {
 			pause()
 		})
 	}
-	for _, as := range accSess {
+	for ai, as := range accSess {
 		as := as
+		ai := ai
 		for t := 0; t < 1+w.W.Draw(2); t++ {
 			spawn("acc-sender", func(i int) {
 				_ = as.S.Send(fixgen.NewMarketDataRequest().SetMDReqID("s" + itoa(i)).SetSubscriptionRequestType("1").SetMarketDepth(1))
@@ -158,7 +166,7 @@ func c20(w *World) {
 		}
 		spawn("acc-queries", func(i int) {
 			_ = as.S.IsLogged()
-			if i%9 == 0 && !noMoreReg {
+			if i%9 == 0 && !(noMoreReg && ai == 0 && stopAcc0) {
 				as.S.OnChangeState(utils.EventLogout, func() bool { return true })
 				as.H.HandleIncoming(fixgen.MsgTypeMarketDataRequest, func([]byte) bool { return true })
 			}
@@ -187,8 +195,8 @@ func c20(w *World) {
 	noMoreReg = true
 	simrt.Sleep(20 * time.Millisecond)
 	simrt.Settle()
-	for _, in := range inis {
-		switch w.W.Draw(4) {
+	for k, in := range inis {
+		switch iniEnding[k] {
 		case 0:
 			_ = in.S.Stop()
 			w.Probe("stop_during_traffic")
@@ -198,7 +206,7 @@ func c20(w *World) {
 			in.I.Close()
 		}
 	}
-	if w.W.Chance(1, 2) && len(accSess) > 0 {
+	if stopAcc0 && len(accSess) > 0 {
 		_ = accSess[0].S.Stop()
 	}
 	simrt.Sleep(1500 * time.Millisecond)
